@@ -28,6 +28,7 @@ type op struct {
 	Path string `json:"path"`
 	H    string `json:"h"`
 	Kind string `json:"kind"`
+	To   string `json:"to"` // Join: the promise P is joined onto (default "q")
 }
 
 type program struct {
@@ -50,7 +51,11 @@ type world struct {
 }
 
 func ev(e string, t int, k string, o op, res string) J {
-	return J{"ev": e, "t": t, "k": k, "op": o.Op, "p": o.P, "path": o.Path, "h": o.H, "kind": o.Kind, "res": res}
+	to := o.To
+	if o.Op == "Join" && to == "" {
+		to = "q"
+	}
+	return J{"ev": e, "t": t, "k": k, "op": o.Op, "p": o.P, "path": o.Path, "h": o.H, "kind": o.Kind, "to": to, "res": res}
 }
 
 // instrumented pipeline caller of one promise
@@ -164,7 +169,11 @@ func (w *world) exec(t int, o op) (res string) {
 		w.promises[o.P].Reject(fmt.Errorf("verif-reject"))
 		return "ok"
 	case "Join":
-		w.promises["p"].Join(w.promises["q"].Answer())
+		to := o.To
+		if to == "" {
+			to = "q"
+		}
+		w.promises[o.P].Join(w.promises[to].Answer())
 		return "ok"
 	case "Struct":
 		_, err := w.promises[o.P].Answer().Struct()
@@ -212,6 +221,7 @@ func runOnce(p *program, ch vsched.Chooser) *vsched.Outcome {
 		meth := capnp.Method{InterfaceID: 7, MethodID: 0}
 		w.promises["p"] = capnp.NewPromise(meth, &pcaller{w, "p"})
 		w.promises["q"] = capnp.NewPromise(meth, &pcaller{w, "q"})
+		w.promises["r"] = capnp.NewPromise(meth, &pcaller{w, "r"})
 		// result with the capability R in pointer field 0
 		m1, s1, _ := capnp.NewMessage(capnp.SingleSegment(nil))
 		r1, _ := capnp.NewRootStruct(s1, capnp.ObjectSize{PointerCount: 1})
